@@ -188,6 +188,11 @@ def check_state(m, where):
                 low = {i for i in labs if i < n}
                 if not low <= set(rmp):
                     v.append("%s: enumerated form uses label(s) %r outside the mapping" % (where, low - set(rmp)))
+                # a label below n in the produced form stands for a model variable, so it is the mapped label of a variable
+                # that occurs in a term; anything else (an ancilla) must be numbered from n upwards
+                if not low <= mapped:
+                    v.append("%s: %s uses label(s) %r below num_binary_variables=%d that are not mapped labels of variables "
+                             "occurring in the model (ancillas must be >= n)" % (where, type(D).__name__, sorted(low - mapped), n))
                 if name in ("QUBO", "QUSO") and not labs <= set(rmp):
                     v.append("%s: enumerated quadratic form has labels outside the mapping" % where)
         except Exception as ex:
